@@ -49,6 +49,46 @@ TEMPLATES = [
 ]
 
 
+# executed before they are analysed (the specialising interpreter rewrites warm code in place: FOR_ITER_RANGE,
+# FOR_ITER_LIST, COMPARE_OP_INT ...); (source, argument tuples)
+WARM = [
+    ("def f(a, b):\n    s = 0\n    for i in range(a):\n        if i % 2:\n            s += i\n        else:\n            s -= 1\n    return s\n", [(40, 0)]),
+    ("def f(a, b):\n    s = 0\n    for x in b:\n        if x is None:\n            continue\n        s += x\n    else:\n        s += 1\n    return s\n", [(0, [1, 2, 3] * 9), (0, (1, 2, 3) * 9)]),
+    ("def f(a, b):\n    n = 0\n    while a > 0:\n        a -= 1\n        for j in range(3):\n            if j == b:\n                break\n            n += j\n        else:\n            n += 10\n    return n\n", [(30, 1), (30, 7)]),
+    ("def f(a, b):\n    out = []\n    for k, v in enumerate(b):\n        if v and k < a:\n            out.append(v)\n        elif not v:\n            continue\n    return out\n", [(5, [1, 0, 2] * 12)]),
+    ("def f(a, b):\n    t = 0\n    for c in 'abcabc' * a:\n        t += 1 if c == 'a' else 2\n    return t if t is not None else b\n", [(8, 0)]),
+]
+
+
+def _warm(col, ver, src, argtuples):
+    """C09 under process state: the function has been executed (warm, specialised code) and debug logging is on."""
+    from vpbt.core import debug_logging
+
+    ns = {}
+    exec(compile(src, "<warm>", "exec"), ns)
+    fn = ns["f"]
+    if not bm.eligible(fn.__code__):
+        col.count("ineligible")  # e.g. an inlined comprehension brings an exception table
+        return
+    for args in argtuples:
+        for _ in range(80):
+            try:
+                fn(*args)
+            except Exception:
+                break
+    for label, ctx in (("warm", None), ("warm+debug-logging", debug_logging())):
+        try:
+            if ctx is None:
+                O.check_code(fn.__code__)
+            else:
+                with ctx:
+                    O.check_code(fn.__code__)
+        except O.V as v:
+            col.fail(f"C09:{v.clause}", f"[{ver}] {label}: {v.msg}", dict(src=src, version=ver, warm=[list(a) for a in argtuples]), len(fn.__code__.co_code))
+    col.count("warm_functions")
+    col.case(("warm", src), len(fn.__code__.co_code), True, sample=dict(warm=src[:300]), classes=["warm"])
+
+
 def long_body(kind, n):
     body = "\n".join(["        x = x + b"] * n)
     if kind == "if":
@@ -150,6 +190,12 @@ def run(spec):
                 continue
             for c in codes:
                 _record(col, ver, f"gen:{c.co_name}", c, src)
+    elif kind == "warm":
+        for src, argtuples in WARM:
+            _warm(col, ver, src, argtuples)
+        for src in TEMPLATES:
+            if "match" not in src:
+                _warm(col, ver, src, [([1, None, 2], [0, 1]), (3, 1), (None, None)])
     elif kind == "trace":
         _, seed, shard, examples = spec
         for src in _gen_sources(seed + 1, shard, examples):
@@ -325,11 +371,13 @@ def plan(tier, seed):
         specs += [("corpus", s, 16, 10**9) for s in range(16)]
         specs += [("gen", seed, s, 60) for s in range(8)]
         specs += [("trace", seed, s, 25) for s in range(8)]
+        specs += [("warm",)]
         specs += [("child311", seed, s, 8, 10**9, 40) for s in range(8)]
     else:
         specs += [("corpus", s, 16, 10**9) for s in range(16)]
         specs += [("gen", seed, s, 1500) for s in range(16)]
         specs += [("trace", seed, s, 500) for s in range(16)]
+        specs += [("warm",)]
         specs += [("child311", seed, s, 16, 10**9, 600) for s in range(16)]
     return specs
 
@@ -366,7 +414,9 @@ def replay(inp):
         p = subprocess.run([exe, "-c", code], capture_output=True, text=True, env=env, cwd=str(VERIF), timeout=600)
         return [(f"C09:{c}", f"[3.11] {m}") for c, m in json.loads(p.stdout.strip().splitlines()[-1])]
     col = Collector()
-    if inp.get("trace"):
+    if inp.get("warm"):
+        _warm(col, "3.12", inp["src"], [tuple(a) for a in inp["warm"]])
+    elif inp.get("trace"):
         _trace(col, "3.12", inp["src"])
     elif inp.get("src"):
         fn, codes = codes_of_source(inp["src"])
